@@ -49,6 +49,37 @@ RUNS = [
          quick=dict(explore=0), thorough=dict(explore=3000000), corpus=False),
 ]
 
+RUNS += [
+    # mpmc: cfg = receive slots, send slots, capacity, shared, max handles per side
+    dict(name="mpmc-c0", prim="mpmc", cfg="2 2 0 0 0", flavours=["local", "sync"],
+         quick=dict(explore=1000000, random=(300, 80)), thorough=dict(explore=1000000, random=(5000, 300)), random_cfg="6 6 0 0 0"),
+    dict(name="mpmc-c1", prim="mpmc", cfg="2 1 1 0 0", flavours=["local", "sync", "fixed", "growing"],
+         quick=dict(explore=1000000, random=(300, 80)), thorough=dict(explore=1000000, random=(5000, 300)), random_cfg="6 6 1 0 0"),
+    dict(name="mpmc-c2", prim="mpmc", cfg="1 2 2 0 0", flavours=["local", "fixed"],
+         quick=dict(explore=1000000, random=(300, 80)), thorough=dict(explore=1000000, random=(5000, 300)), random_cfg="6 6 2 0 0"),
+    dict(name="mpmc-c1-22", prim="mpmc", cfg="2 2 1 0 0", flavours=["local"],
+         quick=dict(explore=0), thorough=dict(explore=4000000), corpus=False),
+    dict(name="mpmc-c2-22", prim="mpmc", cfg="2 2 2 0 0", flavours=["local"],
+         quick=dict(explore=0), thorough=dict(explore=6000000), corpus=False),
+    dict(name="mpmc-shared-c0", prim="mpmc", cfg="1 1 0 1 2", flavours=["shared", "shared-growing"],
+         quick=dict(explore=1000000, random=(300, 80)), thorough=dict(explore=1000000, random=(5000, 300)), random_cfg="4 4 0 1 3"),
+    dict(name="mpmc-shared-c1", prim="mpmc", cfg="1 1 1 1 2", flavours=["shared", "shared-growing"],
+         quick=dict(explore=1000000, random=(300, 80)), thorough=dict(explore=1000000, random=(5000, 300)), random_cfg="4 4 2 1 3"),
+    dict(name="mpmc-shared-c1-h3", prim="mpmc", cfg="2 1 1 1 3", flavours=["shared"],
+         quick=dict(explore=0), thorough=dict(explore=4000000), corpus=False),
+    # oneshot: cfg = slots, broadcast, counted receivers (1 = what C11 requires), shared, max receiver handles
+    dict(name="oneshot-local", prim="oneshot", cfg="3 0 1 0 0", flavours=["local", "sync"],
+         quick=dict(explore=1000000, random=(200, 40)), thorough=dict(explore=1000000, random=(3000, 100)), random_cfg="8 0 1 0 0"),
+    dict(name="bcast-local", prim="oneshot", cfg="3 1 1 0 0", flavours=["local", "sync"],
+         quick=dict(explore=1000000, random=(200, 40)), thorough=dict(explore=1000000, random=(3000, 100)), random_cfg="8 1 1 0 0"),
+    dict(name="oneshot-shared", prim="oneshot", cfg="2 0 1 1 1", flavours=["shared"],
+         quick=dict(explore=1000000, random=(200, 40)), thorough=dict(explore=1000000, random=(3000, 100))),
+    dict(name="bcast-shared", prim="oneshot", cfg="2 1 1 1 3", flavours=["shared"],
+         quick=dict(explore=1000000, random=(200, 40)), thorough=dict(explore=1000000, random=(3000, 100))),
+]
+
+MPMC_RUNS = ["mpmc-c0", "mpmc-c1", "mpmc-c2", "mpmc-c1-22", "mpmc-c2-22", "mpmc-shared-c0", "mpmc-shared-c1", "mpmc-shared-c1-h3"]
+ONESHOT_RUNS = ["oneshot-local", "bcast-local", "oneshot-shared", "bcast-shared"]
 MUTEX_RUNS = ["mutex-k3-unfair", "mutex-k3-fair", "mutex-k4-unfair", "mutex-k4-fair"]
 SEM_RUNS = ["sem-k2-unfair", "sem-k2-fair", "sem-k2-unfair-p1", "sem-k2-fair-p1", "sem-k3-unfair", "sem-k3-fair"]
 
@@ -98,6 +129,11 @@ PROPS = {
         monitor=dict(id=7, runs=["sem-k2-fair"]),
         level_text="Theorem over all fair-mode histories: the fair-order monitor holds (a request n>0 completes only as the oldest pending one or with nobody pending; n=0 completes at once), the queue equals the trace-recomputed arrival order, cancel = filter. Correspondence on every result of the fair state spaces.",
         level_note="Kernel-checked on the Gallina model; tie to the code by differential execution.",
+    ),
+    "C11": dict(
+        level="proof", coq_files=["Properties/C11.v"],
+        runs=MPMC_RUNS + ONESHOT_RUNS, keys=["r", "w", "p", "v"], assumptions=[SCHED_NOTE],
+        level_text="(in progress)", level_note="(in progress)",
     ),
     "C14": dict(
         level="proof",
